@@ -56,6 +56,10 @@ func VerifDecodeValueIndex(a, b int8) (int8, int) {
 	return int8(t), i
 }
 
+// VerifShowableKind exposes specShowableKind (the kinds toString is proved to
+// convert) to the compiler's contract file.
+func VerifShowableKind(k reflect.Kind) bool { return specShowableKind(k) }
+
 // ---- spec functions ----
 
 func specIsHexDigit(c byte) bool {
@@ -1411,9 +1415,22 @@ func wkey(w any) int { return 0 }
 //@   ensures wkey(result) == wkey(wr)
 //@   ensures result != nil
 
+// C09, run-time side. The type checker accepts a show, in the text-like contexts,
+// of every type whose kind is String or lies between Bool and Complex128
+// (compiler.checkShow, proved there to accept nothing else by kind); toString
+// must therefore convert a value of every such kind - and the invalid Value of
+// a nil interface - without the "cannot show value" error.
+func specShowableKind(k reflect.Kind) bool {
+	return k == reflect.Invalid || k == reflect.String || reflect.Bool <= k && k <= reflect.Complex128
+}
+
+func lastResValue(f string) reflect.Value { return reflect.Value{} }
+
 //@ func toString
 //@   props C05 C09
+//@   opt track valueOf
 //@   requires env != nil
+//@   ensures[C09] specShowableKind(lastResValue("valueOf").Kind()) ==> result1 == nil
 
 //@ func valueOf
 //@   props C05
@@ -1453,14 +1470,15 @@ func specTrustedInHTML(v any) bool {
 func specIsBytes(v any) bool { _, ok := v.([]byte); return ok }
 
 //@ func showInHTML
-//@   props C05 C13 C06
+//@   props C05 C13 C06 C09
 //@   opt writerprop C13
-//@   opt track htmlEscape
+//@   opt track htmlEscape toString
 //@   requires env != nil && !wfailed(out)
 //@   ensures[C13] wfailed(out) ==> result != nil && result == werr(out)
 //@   ensures[C13] wonly(out)
 //@   ensures[C06] result == nil && !specTrustedInHTML(value) && !specIsBytes(value) ==> called("htmlEscape") && wout(out) == cat(old(wout(out)), EscHTML(lastArgStr("htmlEscape", 1), 0, len(lastArgStr("htmlEscape", 1))))
 //@   ensures[C06] result == nil && specIsBytes(value) ==> called("htmlEscape") && wout(out) == cat(old(wout(out)), EscHTML(lastArgStr("htmlEscape", 1), 0, len(lastArgStr("htmlEscape", 1))))
+//@   ensures[C09] result != nil && !wfailed(out) && !specTrustedInHTML(value) ==> called("toString") && result == lastErr("toString")
 
 //@ func showInTag
 //@   props C05 C13
@@ -1480,9 +1498,9 @@ func specTrustedInAttr(v any) bool {
 }
 
 //@ func showInAttribute
-//@   props C05 C13 C06
+//@   props C05 C13 C06 C09
 //@   opt writerprop C13
-//@   opt track attributeEscape
+//@   opt track attributeEscape toString
 //@   requires env != nil && !wfailed(out)
 //@   ensures[C13] wfailed(out) ==> result != nil && result == werr(out)
 //@   ensures[C13] wonly(out)
@@ -1490,6 +1508,7 @@ func specTrustedInAttr(v any) bool {
 //@   ensures[C06] result == nil && quoted ==> wout(out) == cat(old(wout(out)), EscHTML(lastArgStr("attributeEscape", 1), 0, len(lastArgStr("attributeEscape", 1)))) || wout(out) == cat(old(wout(out)), EscHTMLNoEnt(lastArgStr("attributeEscape", 1), 0, len(lastArgStr("attributeEscape", 1))))
 //@   ensures[C06] result == nil && !quoted && !specTrustedInAttr(value) ==> wout(out) == cat(old(wout(out)), EscAttrU(lastArgStr("attributeEscape", 1), 0, len(lastArgStr("attributeEscape", 1)), true))
 //@   ensures[C06] result == nil && !quoted ==> wout(out) == cat(old(wout(out)), EscAttrU(lastArgStr("attributeEscape", 1), 0, len(lastArgStr("attributeEscape", 1)), true)) || wout(out) == cat(old(wout(out)), EscAttrU(lastArgStr("attributeEscape", 1), 0, len(lastArgStr("attributeEscape", 1)), false))
+//@   ensures[C09] result != nil && !wfailed(out) ==> called("toString") && result == lastErr("toString")
 
 //@ func showInCSS
 //@   props C05 C13
@@ -1512,13 +1531,14 @@ func specTrustedInAttr(v any) bool {
 
 // JavaScript and JSON string literals: no type is trusted.
 //@ func showInJSString
-//@   props C05 C13 C06
+//@   props C05 C13 C06 C09
 //@   opt writerprop C13
-//@   opt track jsStringEscape
+//@   opt track jsStringEscape toString
 //@   requires env != nil && !wfailed(out)
 //@   ensures[C13] wfailed(out) ==> result != nil && result == werr(out)
 //@   ensures[C13] wonly(out)
 //@   ensures[C06] result == nil ==> called("jsStringEscape") && wout(out) == cat(old(wout(out)), EscJS(lastArgStr("jsStringEscape", 1), 0, len(lastArgStr("jsStringEscape", 1))))
+//@   ensures[C09] result != nil && !wfailed(out) ==> called("toString") && result == lastErr("toString")
 
 //@ func showInJSONString
 //@   props C05 C13
@@ -1547,13 +1567,14 @@ func specTrustedInMarkdown(v any) bool {
 //@   ensures[C06] result == nil && !specTrustedInMarkdown(value) ==> called("markdownEscape") && wout(out) == cat(old(wout(out)), EscMD(lastArgStr("markdownEscape", 1), 0, len(lastArgStr("markdownEscape", 1))))
 
 //@ func showInMarkdownCodeBlock
-//@   props C05 C13 C06 C26
+//@   props C05 C13 C06 C26 C09
 //@   opt writerprop C13
-//@   opt track markdownCodeBlockEscape
+//@   opt track markdownCodeBlockEscape toString
 //@   requires env != nil && !wfailed(out)
 //@   ensures[C13] wfailed(out) ==> result != nil && result == werr(out)
 //@   ensures[C13] wonly(out)
 //@   ensures[C06] result == nil ==> called("markdownCodeBlockEscape") && wout(out) == cat(old(wout(out)), EscMDCode(lastArgStr("markdownCodeBlockEscape", 1), 0, len(lastArgStr("markdownCodeBlockEscape", 1)), spaces))
+//@   ensures[C09] result != nil && !wfailed(out) ==> called("toString") && result == lastErr("toString")
 
 //@ func (*renderer).showInURL
 //@   props C05 C13
